@@ -1,7 +1,6 @@
 package lib
 
 import (
-	"bufio"
 	"bytes"
 	"fmt"
 	"log/slog"
@@ -150,8 +149,31 @@ func runC09(c *hx.Ctx) *hx.Outcome {
 	src := &env.Source{T: t, Data: wire, MaxChunk: maxChunk, ZeroReads: t.SBool(1, 4), DataWithErr: t.SBool(1, 3), Ints: readerFault, PauseOneIn: []int{0, 0, 0, 3, 40}[t.S(5)]}
 	var moreSrc []*env.Source
 	for i := t.SW(7, 2, 1); i > 0; i-- {
-		_, w2, _ := genNoisyStream(c, o)
-		moreSrc = append(moreSrc, &env.Source{T: t, Data: w2, MaxChunk: maxChunk})
+		segs2, w2, _ := genNoisyStream(c, o)
+		ms := &env.Source{T: t, Data: w2, MaxChunk: maxChunk}
+		if tolMs > 0 && len(w2) > 0 && t.SBool(1, 2) {
+			// the later connection goes quiet for a moment too (the earlier one ended
+			// with a silence beyond the tolerance: whatever the handler remembered
+			// about that must not count against this one)
+			last := -1
+			for j := 1 + t.S(2); j > 0; j-- {
+				at := pickOffset(t, segs2, len(w2))
+				if at <= last {
+					at = last + 1 + t.S(4)
+				}
+				if at >= len(w2) {
+					break
+				}
+				last = at
+				ms.Ints = append(ms.Ints, env.Interruption{At: at, Timeout: t.S(2) == 1, Mixed: t.S(4) == 0,
+					Silence: time.Duration(t.S(int(tolMs/2)+1)) * time.Millisecond})
+			}
+			if len(ms.Ints) > 0 {
+				o.Fault("source:later-input-quiet-then-resumes-within-tolerance")
+				s.Freeze = false
+			}
+		}
+		moreSrc = append(moreSrc, ms)
 		o.Probe("further-input-through-the-same-appcore")
 		s.Budget += 96 * (len(w2) + 16) * (1 + nonNil/2)
 	}
@@ -194,7 +216,12 @@ func runC09(c *hx.Ctx) *hx.Outcome {
 			o.Probe("nonzero-eof-tolerance")
 		}
 		ac := appcore.New(&cfg, chans)
-		retCode = ac.HandleMessagesUntilEOF(startTime, bufio.NewReader(src))
+		// (the source is handed over in the form the entry point asks for)
+		raw := t.D(2) == 1
+		if raw && takesPlainReader(ac.HandleMessagesUntilEOF, src) {
+			o.Probe("source-handed-over-without-a-buffered-reader")
+		}
+		retCode = firstInt(callWithSource(ac.HandleMessagesUntilEOF, startTime, src, raw))
 		// the production loop reconnects and processes the next input through the
 		// SAME AppCore: further sources, one call each
 		for _, more := range moreSrc {
@@ -202,7 +229,7 @@ func runC09(c *hx.Ctx) *hx.Outcome {
 				break
 			}
 			s.Logf("next input through the same AppCore")
-			retCode = ac.HandleMessagesUntilEOF(startTime, bufio.NewReader(more))
+			retCode = firstInt(callWithSource(ac.HandleMessagesUntilEOF, startTime, more, raw))
 		}
 		returned = true
 		s.Logf("entry point returned %d", retCode)
@@ -421,12 +448,53 @@ func runC13(c *hx.Ctx) *hx.Outcome {
 	}
 	s.Budget = 96*(len(data)+16) + 20000 + 12*polls // steps since the last byte was handed over
 	src := &env.Source{T: t, Data: data, Ints: ints, MaxChunk: []int{1, 7, 64, 4096, 8192}[t.S(5)], DataWithErr: t.SBool(1, 3), ZeroReads: t.SBool(1, 4), PauseOneIn: []int{0, 0, 0, 3, 40}[t.S(5)]}
+	// One run in four: the process has handled an earlier connection with the same
+	// configuration object (the programs create a new file handler per connection
+	// and hand each the one Config), and that connection ended the hard way.
+	// Whatever was remembered about it must not count against the judged one.
+	var earlier *env.Source
+	if t.SBool(1, 4) {
+		ed := gnss.Concat(gnss.GenStream(t, gnss.Opts{MaxSegs: 3, LongOneIn: 1 << 30}))
+		earlier = &env.Source{T: t, Data: ed, MaxChunk: 64}
+		switch t.S(3) {
+		case 0:
+			// the line went dead: end-of-file (or time-outs) for ever
+			earlier.Ints = []env.Interruption{{At: t.S(len(ed) + 1), Timeout: t.S(2) == 1, Silence: -1}}
+			o.Fault("earlier-connection:ended-in-silence-beyond-tolerance")
+		case 1:
+			earlier.Ints = []env.Interruption{{At: t.S(len(ed) + 1), Fatal: true}}
+			o.Fault("earlier-connection:ended-in-a-fatal-read-error")
+		default:
+			if tolD > 0 && len(ed) > 0 {
+				earlier.Ints = []env.Interruption{{At: t.S(len(ed)), Silence: time.Duration(t.S(int(tolD/time.Millisecond)+1)) * time.Millisecond}}
+			}
+			o.Fault("earlier-connection:ended-at-end-of-data")
+		}
+		s.Budget += 96*(len(ed)+16) + 12*polls
+	}
 	var got []rtcm.Message
 	closed := 0
 	returned := false
 	var retErr error
 	var stoppedAfter time.Duration
 	verdict := s.Run(func() {
+		if earlier != nil {
+			ch0 := make(chan rtcm.Message)
+			rt.Go("consumer-of-the-earlier-connection", func() {
+				for {
+					rt.Yield("consumer0 recv")
+					_, ok := <-ch0
+					rt.Yield("consumer0 recvd")
+					if !ok {
+						return
+					}
+					rt.Progress()
+				}
+			})
+			h0 := fh.New(ch0, &cfg)
+			callWithSource(h0.Handle, startTime, earlier, false)
+			s.Logf("the earlier connection ended")
+		}
 		msgChan := make(chan rtcm.Message, []int{0, 1, 4}[t.S(3)])
 		rt.Go("consumer", func() {
 			for {
@@ -445,7 +513,11 @@ func runC13(c *hx.Ctx) *hx.Outcome {
 		})
 		rt.Go("file-handler", func() {
 			h := fh.New(msgChan, &cfg)
-			retErr = h.Handle(startTime, bufio.NewReader(src))
+			raw := t.D(2) == 1
+			if raw && takesPlainReader(h.Handle, src) {
+				o.Probe("source-handed-over-without-a-buffered-reader")
+			}
+			retErr = firstErr(callWithSource(h.Handle, startTime, src, raw))
 			returned = true
 			stoppedAfter = s.Elapsed()
 			s.Logf("Handle returned %v", retErr)
